@@ -12,7 +12,7 @@ Line protocol of the C14 model (sums are exact integers: `M := Int`).
   C14 mergedtrim <req> <parts>   top-level composite only: finalize (fold compMergeFruits (parts.map collectSegComposite)) — per-segment eviction and merge-time trim above 2*size
   C14 mergedevict <req> <parts>   finalize (fold merge (parts.map collectSegEvict)) — eviction at every composite node, no terms cut
   C14 mergedfull <req> <parts>   finalize (mergeFruits (parts.map collectSegFull)) — terms cut and composite eviction
-  C14 keyasc <req> <parts>   top-level terms, _key ascending or descending, min_doc_count ≤ 1, no terms below: `same` when the truncated
+  C14 keyasc <req> <parts>   top-level terms; _key ascending or descending, or any order with at most one non-empty part (C14_terms_single_segment_exact_any_schedule); min_doc_count ≤ 1, no terms below: `same` when the truncated
                              merged segments show the buckets and sum_other_doc_count of evalAggPV, `diff …` otherwise, `n/a` when not applicable
   C14 limit  <n> <req> <parts>   finalizeGuarded n on the merged tree: `ok <res>` | `err <count>`
   C14 defaults <size|_> <segment_size|_> <min_doc_count|_>   size, segment_size, min_doc_count, default bucket limit
@@ -202,7 +202,7 @@ def handle : List String → String
     -- segments show the buckets of the direct computation
     match parseReqStr rq, parseParts ps with
     | some (.terms p sub), some parts =>
-      if (p.order == .keyAsc || p.order == .keyDesc) && decide (p.size ≤ p.segSize) && decide (p.minDocCount ≤ 1) && sub.cutFree then
+      if ((p.order == .keyAsc || p.order == .keyDesc) || decide ((parts.filter (fun q => !q.isEmpty)).length ≤ 1)) && decide (p.size ≤ p.segSize) && decide (p.minDocCount ≤ 1) && sub.cutFree then
         let a : Res Int (.terms p sub) := finalize (.terms p sub) (merged (.terms p sub) parts)
         let b : Res Int (.terms p sub) := evalAggPV Int (.terms p sub) parts.flatten
         if showRes (.terms p sub) (a.1, a.2.1, 0) == showRes (.terms p sub) (b.1, b.2.1, 0) then "same"
